@@ -543,7 +543,7 @@ for i, vmax in ((I(16, 1), 0), (I(32, 1), 65535), (I(64, 1), 65535)):
     for R in (16, 256, 10, 8):
         c11(i, 'u', R, 'quick' if (R == 256 or (i.bits == 16 and R == 16)) else 'thorough', 'digits', vmax=vmax, cap=3600)
 for R in (2, 8, 10, 16, 32, 36, 255, 256):
-    c11(I(8, 2), 'u', R, 'thorough', 'digits', cap=7200)
+    c11(I(8, 2), 'u', R, 'quick' if R == 256 else 'thorough', 'digits', cap=7200)
 for i, R, tier in ((I(8, 1), 10, 'thorough'), (I(8, 1), 16, 'thorough'), (I(8, 1), 2, 'thorough'), (I(8, 1), 36, 'thorough'), (I(8, 2), 10, 'thorough')):
     maxd = math.ceil(i.bits / math.log2(R))
     add(H('C11', f"c11_str_neg_{i.tag}_r{R}", 'c11_str_neg', f"{maxd + 5}, {i.I}, {i.digit}, {i.n}, {R}, {maxd}", tier=tier, cap=3600, inst=i.label, core=False, mem_gb=16,
@@ -596,6 +596,10 @@ for sg in ('u', 'i'):
         add(H('C16', f"c16_parse_{sg}_{a.tag}_{b.tag}", 'c16_parse', f"{L + 2}, {A}, {a.digit}, {a.n}, {B}, {b.digit}, {b.n}, {L}", tier=tier, cap=3600, core=False, mem_gb=8,
               inst=f"{a.label} vs {b.label}", funcs='decimal from_str_radix commutes with extension / is independent of the digit type', bound=f'all ASCII strings of length 0..={L}'))
     c16_pair('c16_same_width_mul', I(8, 4), I(32, 1), sg, 'thorough', extra=', any_alpha', cap=7200, core=False, label='equal width 32: mul/div/rem/pow, u8 digits over the boundary alphabet')
+for a, b, R, maxd, tier in ((I(8, 2), I(16, 1), 256, 2, 'quick'), (I(8, 2), I(16, 1), 16, 4, 'quick'), (I(8, 2), I(8, 3), 256, 2, 'quick'), (I(8, 2), I(16, 1), 10, 5, 'thorough'),
+                            (I(8, 4), I(32, 1), 256, 4, 'thorough'), (I(8, 2), I(64, 1), 256, 2, 'thorough')):
+    add(H('C16', f"c16_radix_same_{a.tag}_{b.tag}_r{R}", 'c16_radix_same', f"{max(maxd, a.bytes, b.bytes) + 3}, {a.U}, {a.digit}, {a.n}, {b.U}, {b.digit}, {b.n}, {R}, {maxd}", tier=tier, cap=3600,
+          core=False, mem_gb=12, inst=f"{a.label} vs {b.label}", funcs='to_radix_le is independent of the digit type / commutes with extension', bound=f'all values, radix {R}'))
 for tier, insts in (('quick', LIN_Q), ('thorough', LIN_T + [I(64, 17), I(8, 40)])):
     for i in insts:
         add(H('C16', f"c16_consts_{i.tag}", 'c16_consts', f"{i.n + 2}, {i.std().rsplit(',', 1)[0]}", tier=tier, inst=i.label,
